@@ -1,17 +1,17 @@
-\* behaviour export: every two-cut behaviour of a reduced configuration
+\* behaviour export: single cuts on event boundaries, every sequence of reconnect answers over the whole status class
 \* (tools/checks/c09.py builds its configurations from the same template - the Fix* switches of the configurations that model
 \*  the real code come from its REPAIRED table; this file is the thorough-tier one, for manual runs:
-\*  java -cp $TLA_CP tlc2.TLC -config StreamCli_gen2.cfg StreamCliMC)
+\*  java -cp $TLA_CP tlc2.TLC -config StreamCli_genS.cfg StreamCliMC)
 SPECIFICATION Spec
 CONSTANTS
   KindSet = {"post", "sa"}
   ShapeSet <- TwoShapes
-  SchemeSet = {"nested"}
+  SchemeSet = {"dec"}
   MSet = {2}
-  MRSet = {1, 2}
-  MaxCuts = 2
-  ClassSet = {"bnd", "field", "name", "id", "idfull", "data", "datafull"}
-  AnswerSet = {"terr", "ok", "429", "403"}
+  MRSet = {1, 2, 3}
+  MaxCuts = 1
+  ClassSet = {"bnd"}
+  AnswerSet = {"terr", "ok", "429", "500", "502", "503", "504", "404", "403", "501"}
   TailSet = {"good"}
   FixScanner = FALSE
   FixCursor = TRUE
